@@ -260,6 +260,16 @@ impl Object {
         self.0 as usize & TAG_MASK >= Type::Float as usize
     }
 
+    /// Returns a copy of this object that is not managed by any garbage collector (yet).
+    /// Only floats and strings are actually copied, all other objects are returned as they are.
+    pub(crate) fn duplicate(self) -> Self {
+        match self.tag() {
+            Type::Float => Float::from_f64(unsafe { self.as_f64_unchecked() }),
+            Type::String => String::from_string(unsafe { self.as_str_unchecked() }.to_owned()),
+            _ => self,
+        }
+    }
+
     /// Frees the memory address this pointer points to
     pub fn free(self) {
         unsafe {
